@@ -49,8 +49,9 @@ def run_case(ctx, case):
         if degenerate:
             rec.case(case, nontrivial=False)
             return          # outside the guaranteed classes
-        if touching:
-            # a meeting point on a vertex / an end of a segment: completeness is not demanded (not a transversal crossing strictly
+        if touching or c.get("soundness_only"):
+            # a meeting point on a vertex / an end of a segment (or, after rounding of decimal coordinates, within an ulp of one:
+            # the exact oracle on the float images and the tolerance-based answer may then legitimately count differently): completeness is not demanded (not a transversal crossing strictly
             # inside two segments), but whatever is returned must still be inside the intervals, a meeting point, and free of duplicates
             expected = None
     # weighted polylines (degree 1, positive weights): the same point sets as the unweighted polylines, other parametrisation — the
@@ -222,7 +223,7 @@ def run(ctx):
                  P=[(cx + e1[0], cy + e1[1]), (cx, cy), (cx + e2[0], cy + e2[1])], W=None)
         if rng.random() < 0.25:
             A, B = B, A
-        run_case(ctx, ser(dict(kind="pair", label="vertex-on-doublepoint", A=A, B=B)))
+        run_case(ctx, ser(dict(kind="pair", label="vertex-on-doublepoint", A=A, B=B, soundness_only=True)))
     for i in range(budget(ctx, 12, 120)):
         # single-span operands that clean() could simplify: they must come back untouched
         A, ka = reducible_bezier(rng, 2)
